@@ -71,7 +71,10 @@ class C07(core.Prop):
 
     def build(self, shape):
         n = shape['n']
-        names = [SymStr([sym_alnum('nm%d' % i)]) for i in range(n)]
+        if shape.get('free_orders') is not None:
+            names = ['%s' % 'ABCDEFGHIJKLMNOP'[i] for i in range(n)]      # many ring closures: concrete distinct names
+        else:
+            names = [SymStr([sym_alnum('nm%d' % i)]) for i in range(n)]
         orders = []
         for k, e in enumerate(shape['edges']):
             if shape.get('free_orders') is not None and k >= shape['free_orders']:
@@ -117,7 +120,8 @@ class C07(core.Prop):
             r.add_edge(a, b, order=o)
         cl.append(('same_size', len(g) == len(r) and g.number_of_edges() == r.number_of_edges()))
         cl.append(('isomorphic_with_names_and_orders', gg.iso_clause(
-            g, r, lambda x, y: x['fragname'] == y.get('fragname'), lambda x, y: x['order'] == y.get('order'))))
+            g, r, lambda x, y: x['fragname'] == y.get('fragname'), lambda x, y: x['order'] == y.get('order'),
+            concrete_label=(lambda a: a.get('fragname')) if shape.get('free_orders') is not None else None)))
         return cl
 
     def classify(self, shape, cinp, cobs, clauses):
